@@ -161,6 +161,13 @@ def run(ctx):
                         cases.append(dict(method=m, span=list(sp), dt0=dt0, dense=dense, hist=hist, dtype=dn))
                         if hist != "none":
                             cases.append(dict(method=m, span=list(sp), dt0=dt0, dense=dense, hist=hist, dtype=dn, against=True))
+    # beside the convenient values: a step that is not a dyadic fraction and spans far from the origin of the time axis
+    for m in ("RK4Solver", "RK45CKSolver"):
+        for sp in ((0.0, 2.0), (1.0, -1.0), (1000.0, 1002.0), (-1000.0, -1002.0), (1002.0, 1000.0)):
+            for dense in (False, True):
+                for hist in ("one", "continued", "extended"):
+                    for dn in (("float64", "float32") if ctx.quick else ("float64", "float32", "longdouble")):
+                        cases.append(dict(method=m, span=list(sp), dt0=0.1, dense=dense, hist=hist, dtype=dn))
     grid.pmap(check_case, cases, ctx, horizon=300)
 
 
